@@ -1368,3 +1368,41 @@ pub fn add_bank_permissionless(
         vec![ro(oracle), ro(b.mint), ro(sol_pool)],
     )
 }
+
+// ---------------- integrations (only the Solend deposit is simulated) ----------------
+
+pub fn solend_deposit(
+    b: &crate::actors_integ::SolendBank,
+    account: Pubkey,
+    authority: Pubkey,
+    signer_token_account: Pubkey,
+    amount: u64,
+) -> Ix {
+    mk(
+        "solend_deposit",
+        marginfi::accounts::SolendDeposit {
+            group: b.keys.group,
+            marginfi_account: account,
+            authority,
+            bank: b.keys.bank,
+            signer_token_account,
+            liquidity_vault_authority: b.keys.liquidity_auth,
+            liquidity_vault: b.keys.liquidity_vault,
+            integration_acc_2: b.obligation,
+            lending_market: b.market,
+            lending_market_authority: b.market_auth,
+            integration_acc_1: b.reserve,
+            mint: b.keys.mint,
+            reserve_liquidity_supply: b.liq_supply,
+            reserve_collateral_mint: b.col_mint,
+            reserve_collateral_supply: b.col_supply,
+            user_collateral: b.user_col,
+            pyth_price: b.pyth,
+            switchboard_feed: b.swb,
+            solend_program: crate::rt::solend_id(),
+            token_program: b.keys.token_program,
+        },
+        marginfi::instruction::SolendDeposit { amount },
+        vec![],
+    )
+}
